@@ -119,6 +119,7 @@ func (rr *RdbReplay) Replay(e *rdb.BinEntry) (err error) {
 			params = append(params, e.Freq)
 		}
 	}
+	replaceExisting := false
 RESTORE:
 	s, err := common.String(rr.Client.Do("restore", params...))
 	if err != nil {
@@ -132,6 +133,7 @@ RESTORE:
 					log.Infof("replace key: %s", e.Key)
 				}
 				params = append(params, "REPLACE")
+				replaceExisting = true
 				goto RESTORE
 			case "ignore":
 				if rr.KeyExistsLog {
@@ -142,6 +144,12 @@ RESTORE:
 			}
 		} else if strings.Contains(err.Error(), "Bad data format") { // cluster.c:restoreCommand
 			log.Warn(err, " try to restoreBigRdbEntry")
+			if replaceExisting {
+				// the RESTORE ... REPLACE that failed would have removed the existing key, the expanded commands do not
+				if _, err := common.Int64(rr.Client.Do("del", e.Key)); err != nil {
+					return fmt.Errorf("del exist key error : key(%s), error(%w)", e.Key, err)
+				}
+			}
 			if err := restoreBigRdbEntry(rr.Client, e); err != nil {
 				return err
 			}
